@@ -13,3 +13,27 @@ Definition res_code {A} (eqb: A -> A -> bool) (model impl: res A) : N :=
   end.
 
 Definition enc_code (model impl: res bytes) : N := res_code bytes_eqb model impl.
+
+From PV Require Import Model.Proc Model.Enc Model.Dec.
+
+(* implementation's decode outcome: abstract content of the returned object against the guiding
+   type (computed by harness/universe.py absval) and the remainder *)
+(* a value that does not fit its type anywhere inside is just "bad": both sides collapse it *)
+Fixpoint has_bad (a: aval) : bool :=
+  match a with
+  | ABad => true
+  | ARec fs => existsb (fun o => match o with Some x => has_bad x | None => false end) fs
+  | AList xs | ABag xs => existsb has_bad xs
+  | AChoice _ x => has_bad x
+  | _ => false
+  end.
+Definition norm_bad (a: aval) : aval := if has_bad a then ABad else a.
+
+Definition dec_code (T: ty) (model: res (dval * bytes)) (impl: res (aval * bytes)) : N :=
+  match model, impl with
+  | Err EUnmodelled, _ => 2
+  | Ok (DV _ v, r), Ok (a, r') => if aval_eqb (norm_bad (abs T v)) (norm_bad a) && bytes_eqb r r' then 0 else 1
+  | Ok (_, _), Ok _ => 1
+  | Err e, Err e' => if err_eqb e e' then 0 else 1
+  | _, _ => 1
+  end.
